@@ -152,3 +152,4 @@ def check(ctx):
     from . import c07
     c07.r_value_to_structural(ctx, 'R12.5')
     c07.r_layout_tables(ctx, 'R12.6', c07.LAYOUT_CONSTRUCT, 20)
+    c07.r_uint_tables(ctx, only={'get_type', 'from-primitive', 'structural-value', 'structural-type'})   # the argument's reported type and its encoding
